@@ -11,23 +11,23 @@ sys.path.insert(0, VERIF)
 TECH = {
     "C01": "MIR path multiplicity/pairing rules over the polymorphic sample recorder (loops, roles by Fn type, unwind-path audit) + Sync-bound predicates and compile-fail witnesses",
     "C02": "MIR region rule between timestamp anchors (callee allow-list, no Drop), tally-bracket ordering, who-may-call, fence order",
-    "C03": "MIR dominance/once-per-iteration rules on the sampling loop, constants and provenance of reported counts",
-    "C04": "decision-DAG extraction of the sampling-loop condition (comparison atoms) compared with the documented truth table; provenance of the two clocks",
+    "C03": "MIR dominance/once-per-iteration rules on the sampling loop, constants and provenance of reported counts, fresh-sample-store-per-run (constructor/run/report in one loop iteration, single constructor)",
+    "C04": "decision-DAG extraction of the sampling-loop condition over canonical comparison atoms, compared as a truth table with the documented rule; provenance of the two clocks; clock-start placement",
     "C05": "provenance role-pairing of StatsSet fields, index writer/reader agreement, division-guard discharge over every Div/Rem reachable from compute_stats/finish_leaf",
     "C06": "MIR structural rules: ordering constants, use-after-release typestate, wait-loop dominance, counter/send provenance, trait-bound predicates",
-    "C07": "MIR structural rules: park-loop re-check, unpark control dependence, worker exit path, sender ownership, lock-scope audit",
+    "C07": "MIR structural rules: park-loop re-check, unpark control dependence, worker exit path, sender ownership, lock-scope audit, provenance of the unparked handle (per-broadcast caller)",
     "C08": "must-pass-through barrier placement on all recorder paths, barrier arity provenance, unwind-path audit of user-closure calls",
     "C09": "MIR forwarding rule (exactly-once, verbatim operands, result place), transitive callee-closure allow-list, thread-local type facts",
-    "C10": "MIR operand/field pairing rules on tally functions, enum/array table agreement, straight-line write ordering",
-    "C11": "MIR expression-shape rules (widen before multiply, multiply before divide, constants, checked ops) + type-range argument",
-    "C12": "syn analysis of attribute-macro expansions (-Zunpretty=expanded) against attributed items of the unexpanded source + MIR rules on list/tree insertion",
-    "C13": "polarity constants, decision table of FilterSet::is_match, call-site placement of the filter callback per tree arm, naming-accessor agreement",
-    "C14": "entry-point/action constant tables, dominance of the listing short-circuit, provenance of every should_ignore argument, print-site structure of the terse walk",
-    "C15": "ADT-enumerated field-wise merge provenance, merge direction at call sites, string-constant table agreement (CLI ids/env names/fields), ignore decision table",
+    "C10": "flow-sensitive path summaries of the tally functions (final value of every field on every path as canonical value expressions, no solver), hook/tally pairing by call multisets per path, enum/array table agreement",
+    "C11": "MIR expression-shape rules (difference before conversion in either zero-clamping idiom, widen before multiply, multiply before divide, constants, operand widths) + type-range argument",
+    "C12": "syn analysis of attribute-macro expansions (-Zunpretty=expanded) against attributed items of the unexpanded source + MIR rules on list/tree insertion and on the unconditional pruning of empty argument lists",
+    "C13": "polarity constants, per-path return values of FilterSet::is_match as canonical comparisons (path summaries), call-site placement of the filter callback per tree arm, naming-accessor agreement",
+    "C14": "entry-point/action constant tables, dominance of the listing short-circuit, provenance of every should_ignore argument, print-site structure of the terse walk, exact-filter arm is whole-string equality",
+    "C15": "ADT-enumerated field-wise merge: per-field result on every path (path summaries: or-combiner or choice on the overriding side), all-origins provenance of the effective options, string-constant table agreement (CLI ids/env names/fields), ignore decision table, thread-count pipeline",
     "C16": "symmetric-comparator taint over all Ordering-returning functions, tie-breaker table, reversal wiring, mutator effect rule, derived-Ord field order",
     "C17": "provenance of label/index/runner in the Args arm, writers of Leaf.args, parallel-slice construction in BenchArgs::runner, TypeId check dominance; macro side via expansions",
-    "C18": "constant-table agreement of scale thresholds/suffixes (time units, decimal/binary prefixes)",
-    "C19": "mode-machine constants and control dependence in the sampling loop, clear discipline (ADT-enumerated)",
+    "C18": "constant-table agreement of scale thresholds/suffixes; canonical value expressions (static value numbering) for the truncation rule: result is a prefix of the exact rendering, cut positions, integer-truncated argument",
+    "C19": "mode-machine constants (canonical threshold comparison, doubling as a linear form) and control dependence in the sampling loop, clear discipline (ADT-enumerated), per-round size store",
     "C20": "path-sensitive start/finish typestate with correlated-branch splitting, is_last provenance, width-constant agreement, column-table agreement",
 }
 
@@ -84,13 +84,13 @@ def main():
             {"name": "mirfacts", "path": "driver/", "serves_properties": ids,
              "kind_free_text": "rustc_private driver exporting structured MIR, resolved callees and type facts as JSON"},
             {"name": "rules", "path": "lib/ rules/ check", "serves_properties": ids,
-             "kind_free_text": "Python rule engine: CFG/dominance/loops, provenance, path-sensitive typestate, decision tables, who-may-call"},
+             "kind_free_text": "Python rule engine: CFG/dominance/loops, provenance (with path-merge markers), path-sensitive typestate, canonical value expressions, flow-sensitive path summaries, decision tables, who-may-call"},
             {"name": "expand", "path": "expand/ corpus/", "serves_properties": ["C12", "C17", "C15"],
              "kind_free_text": "syn-based analysis of attribute-macro expansions (-Zunpretty=expanded)"},
         ],
         "checks": checks,
         "notes": "Technique family: static analysis only. Known findings and fixed defects: known_findings.json. "
-                 "Mutant self-tests: tools/mut.py run. Seeded changes from independent sub-agents: seeded/.",
+                 "Positive controls: mutants/ (tools/mut.py run; also applied by every thorough-tier run) and seeded/ (independent sub-agents). Silence tests on behaviour-preserving refactors: refactors/ (tools/mut.py refactor-run).",
         "not_applicable": na,
     }
     with open(os.path.join(VERIF, "MANIFEST.json"), "w") as fh:
